@@ -182,8 +182,16 @@ func (brr *BalanceRR) Update(conf cluster_table_conf.SubClusterBackend) {
 		}
 	}
 
-	// add new backend to backendsNew
-	for _, bkConf := range confMap {
+	// add new backend to backendsNew, in the order of conf
+	for _, backendConf := range conf {
+		backendKey := backendConf.AddrInfo()
+		bkConf, ok := confMap[backendKey]
+		if !ok {
+			// existing backend, or already added
+			continue
+		}
+		delete(confMap, backendKey)
+
 		backendRR := NewBackendRR()
 		backendRR.Init(brr.Name, bkConf)
 		backend := backendRR.backend
